@@ -10,6 +10,7 @@ package server
 //             (3) the tables the extracted model needs (X25519 results, http/base64 black box)
 
 import (
+	crand "crypto/rand"
 	"encoding/json"
 	"fmt"
 	"io"
@@ -23,12 +24,15 @@ import (
 )
 
 type vfC07Case struct {
-	ID   string `json:"id"`
-	St   string `json:"st"`
-	Now  int64  `json:"now"`
-	Kind string `json:"kind"`
-	Pkt  string `json:"pkt"`
+	ID   string    `json:"id"`
+	St   string    `json:"st"`
+	Now  int64     `json:"now"`
+	Kind string    `json:"kind"`
+	Pkt  string    `json:"pkt"`
+	Cfg  *vfC07Cfg `json:"cfg"` // when set: the State comes from the real InitState on this RawConfig (c07_init_test.go)
 }
+
+func vfC07CryptoRead(p []byte) (int, error) { return crand.Read(p) }
 
 func vfC07Exact(b []byte) []byte { // cap == len, as the model assumes
 	r := make([]byte, len(b))
@@ -77,6 +81,25 @@ func TestVerifC07(t *testing.T) {
 			t.Fatalf("bad case %q: %v", ln, err)
 		}
 		fac := facs[c.St]
+		initDesc := ""
+		if c.Cfg != nil {
+			cfg := c.Cfg
+			sta0, ierr := cfg.initState(c.Now, vfC07TempDir())
+			initDesc = " | " + cfg.describe(sta0, ierr)
+			if ierr != nil {
+				fmt.Fprintf(w, "%s auth=- ci= disp=- | - | -%s\n", c.ID, initDesc)
+				w.Flush()
+				continue
+			}
+			fac = &vfC09StateFactory{spec: vfC09StateSpec{Pv: vfC09Hex(sta0.StaticPv.(*[32]byte)[:])},
+				mk: func(now int64) *State {
+					sta, err := cfg.initState(now, vfC07TempDir())
+					if err != nil {
+						panic("InitState failed the second time: " + err.Error())
+					}
+					return sta
+				}}
+		}
 		if fac == nil {
 			t.Fatalf("case %s: unknown state %s", c.ID, c.St)
 		}
@@ -102,7 +125,7 @@ func TestVerifC07(t *testing.T) {
 			}
 		}()
 		if panicked != "" {
-			fmt.Fprintf(w, "%s PANIC=%s\n", c.ID, panicked)
+			fmt.Fprintf(w, "%s PANIC=%s | - | -%s\n", c.ID, panicked, initDesc)
 			w.Flush()
 			continue
 		}
@@ -143,7 +166,7 @@ func TestVerifC07(t *testing.T) {
 			line += " hard=1"
 		}
 		// tables for what readFirstPacket extracts from the same bytes as a stream
-		fmt.Fprintf(w, "%s | %s | %s\n", line, tb, vfC09Tables(pkt, false, fac, c.Now))
+		fmt.Fprintf(w, "%s | %s | %s%s\n", line, tb, vfC09Tables(pkt, false, fac, c.Now), initDesc)
 		w.Flush() // see c09_test.go: the first case without a line is the one that killed the process
 	}
 	// let a goroutine that is about to die (panic outside every recover) do so while the process is still there
